@@ -52,6 +52,33 @@ Proof. unfold dispatch_error, tm_dispatch_error, exs. cbn [fst active_exchanges 
 Lemma dispatch_error_aget r0 s : aget r0 (backlogs (fst (dispatch_error r0 s))) = None.
 Proof. unfold dispatch_error, tm_dispatch_error. cbn [fst backlogs upd_bl upd_ex upd_in upd_out]. apply aget_adel_same. Qed.
 
+(* the two alternatives, in full: what "discarded" and "kept" mean for the queue of r in the step s --e--> *)
+Definition Discarded (l : list Z) (r : Z) (s : st) (e : event) : Prop :=
+  let s' := fst (step_ev l s e) in let o := snd (step_ev l s e) in
+  aget r (backlogs s') = None /\ exs r s' = [] /\ left r o = backlog_of r s ++ subm r o.
+Definition Kept (l : list Z) (r : Z) (s : st) (e : event) : Prop :=
+  let s' := fst (step_ev l s e) in let o := snd (step_ev l s e) in
+  exs r s' = exs r s /\ left r o = [] /\ backlog_of r s' = backlog_of r s ++ subm r o /\
+  (aget r (backlogs s') = None <-> aget r (backlogs s) = None).
+
+Lemma alt_gone l r s e : Inv s -> exs r (fst (step_ev l s e)) = [] -> Discarded l r s e.
+Proof. intros HI D. unfold Discarded. cbn zeta. destruct (general_step l s e HI) as (HI' & B & _).
+  set (s' := fst (step_ev l s e)) in *. set (o := snd (step_ev l s e)) in *. specialize (B r).
+  assert (Ha : aget r (backlogs s') = None).
+  { destruct (inv_count_aget s' r HI') as [[_ H]|(x & q & Hx & _)]; [exact H|rewrite D in Hx; discriminate]. }
+  split; [exact Ha|]. split; [exact D|].
+  assert (Hb : backlog_of r s' = []) by (unfold backlog_of; rewrite Ha; reflexivity).
+  rewrite Hb, app_nil_r in B. symmetry. exact B. Qed.
+Lemma alt_kept l r s e : Inv s -> exs r (fst (step_ev l s e)) = exs r s -> left r (snd (step_ev l s e)) = [] -> Kept l r s e.
+Proof. intros HI D1 D2. unfold Kept. cbn zeta. destruct (general_step l s e HI) as (HI' & B & _).
+  set (s' := fst (step_ev l s e)) in *. set (o := snd (step_ev l s e)) in *. specialize (B r).
+  split; [exact D1|]. split; [exact D2|]. split; [rewrite D2 in B; symmetry; exact B|].
+  destruct (inv_count_aget s r HI) as [[Hc Hn]|(x & q & Hx & Hq & _)]; destruct (inv_count_aget s' r HI') as [[Hc' Hn']|(x' & q' & Hx' & Hq' & _)].
+  - split; intros; assumption.
+  - exfalso. rewrite D1, (count0_exs r s Hc) in Hx'. discriminate.
+  - exfalso. rewrite <- D1, (count0_exs r s' Hc') in Hx. discriminate.
+  - rewrite Hq, Hq'. split; discriminate. Qed.
+
 Section Refused.
 Variable l : list Z.
 Variable r : Z.
@@ -207,26 +234,175 @@ Proof. intros HI. destruct (touches s e r) eqn:Ht.
 (* the exported form: with the invariant and the queue balance of the general step theorem *)
 Theorem refused_remote_step s e : Inv s ->
   let s' := fst (step_ev l s e) in let o := snd (step_ev l s e) in
-  Inv s' /\ (forall x, ~ In (Crash x) o) /\ wsil r o /\
-  ((aget r (backlogs s') = None /\ exs r s' = [] /\ left r o = backlog_of r s ++ subm r o) \/
-   (exs r s' = exs r s /\ left r o = [] /\ backlog_of r s' = backlog_of r s ++ subm r o /\
-    (aget r (backlogs s') = None <-> aget r (backlogs s) = None))).
-Proof. intros HI. cbn zeta. destruct (general_step l s e HI) as (HI' & B & C). destruct (step_P s e HI) as (D & W).
-  set (s' := fst (step_ev l s e)) in *. set (o := snd (step_ev l s e)) in *.
-  split; [exact HI'|]. split; [exact C|]. split; [exact W|]. specialize (B r).
-  destruct D as [D|(D1 & D2)].
-  - left. assert (Ha : aget r (backlogs s') = None).
-    { destruct (inv_count_aget s' r HI') as [[_ H]|(x & q & Hx & _)]; [exact H|rewrite D in Hx; discriminate]. }
-    split; [exact Ha|]. split; [exact D|].
-    assert (Hb : backlog_of r s' = []) by (unfold backlog_of; rewrite Ha; reflexivity).
-    rewrite Hb, app_nil_r in B. symmetry. exact B.
-  - right. split; [exact D1|]. split; [exact D2|]. split; [rewrite D2 in B; symmetry; exact B|].
-    destruct (inv_count_aget s r HI) as [[Hc Hn]|(x & q & Hx & Hq & _)]; destruct (inv_count_aget s' r HI') as [[Hc' Hn']|(x' & q' & Hx' & Hq' & _)].
-    + split; intros; assumption.
-    + exfalso. rewrite D1, (count0_exs r s Hc) in Hx'. discriminate.
-    + exfalso. rewrite <- D1, (count0_exs r s' Hc') in Hx. discriminate.
-    + rewrite Hq, Hq'. split; discriminate. Qed.
+  Inv s' /\ (forall x, ~ In (Crash x) o) /\ wsil r o /\ (Discarded l r s e \/ Kept l r s e).
+Proof. intros HI. cbn zeta. destruct (general_step l s e HI) as (HI' & _ & C). destruct (step_P s e HI) as (D & W).
+  split; [exact HI'|]. split; [exact C|]. split; [exact W|].
+  destruct D as [D|(D1 & D2)]; [left; apply alt_gone; assumption|right; apply alt_kept; assumption]. Qed.
 End Refused.
+
+(* ---------------------------------------------------------------- WHICH alternative: decided by the event and the state before.
+   [attempts s e r]: the step hands a datagram for r to the transport (first transmission of a NON or of a CON that is not held
+   back, the empty ACK/RST answering a CON from r, a retransmission), or ends r's exchange (matching ACK/RST, transport error,
+   final time-out). *)
+Definition held (mt r : Z) (s : st) : bool := (resolve_mtype mt =? 0) && in_backlogs r s.
+Definition attempts (s : st) (e : event) (r : Z) : bool :=
+  match e with
+  | Request _ r' mt _ | RawSend _ r' mt _ _ => (r' =? r) && negb (held mt r s)
+  | RecvEmpty r' mt mid | RecvResp r' mt mid _ =>
+      (r' =? r) && ((mt =? 0) || (((mt =? 2) || (mt =? 3)) && match xget r mid (active_exchanges s) with Some _ => true | None => false end))
+  | TransportError r' => r' =? r
+  | Fire => match min_timer (active_exchanges s) with Some x => m_remote (x_msg x) =? r | None => false end
+  | Respond _ k _ _ => match find (fun v => v_k v =? k) (incoming_requests s) with
+                       | Some v => (v_remote v =? r) && negb (held (if v_mtype v =? 1 then 7 else 8) r s)
+                       | None => false end
+  | Advance _ | Cancel _ | Serve _ _ _ _ => false
+  end.
+Lemma attempts_touches s e r : attempts s e r = true -> touches s e r = true.
+Proof. destruct e; cbn; try discriminate; try (intros H; lia).
+  - destruct (min_timer _); [auto|discriminate].
+  - destruct (find _ _); [intros H; lia|discriminate]. Qed.
+
+Section Which.
+Variable l : list Z.
+Variable r : Z.
+Hypothesis Href : refuses l r = true.
+
+Definition W (b : bool) (s : st) (res : st * list output) : Prop :=
+  if b then exs r (fst res) = [] else exs r (fst res) = exs r s /\ left r (snd res) = [].
+
+Lemma send_message_which who mt code tok maxre s :
+  W (negb (held mt r s)) s (C14refuse.send_message l who r mt code tok maxre s).
+Proof. unfold W, held, C14refuse.send_message, next_message_id. cbn [m_mtype].
+  set (s0 := {| now := now s; seq := seq s; message_id := Z.land 65535 (1 + message_id s); token := token s; rand := rand s;
+                active_exchanges := active_exchanges s; backlogs := backlogs s; outgoing_requests := outgoing_requests s; incoming_requests := incoming_requests s |}).
+  set (m := {| m_sub := who; m_remote := r; m_mtype := resolve_mtype mt; m_code := code; m_mid := message_id s; m_tok := tok; m_maxre := maxre |}).
+  change (in_backlogs r s) with (in_backlogs r s0).
+  destruct ((resolve_mtype mt =? 0) && in_backlogs r s0); cbn [negb].
+  - destruct (aget r (backlogs s0)) as [q|]; [|split; reflexivity].
+    destruct (has_exchange r s0); cbn [fst snd]; split; reflexivity.
+  - destruct (send_initially_refused l r Href m s0 eq_refl) as (A & _ & _).
+    destruct (C14refuse.send_initially l m s0) as [s1 o1]. exact A. Qed.
+
+Lemma tm_request_which q mt maxre s : W (negb (held mt r s)) s (C14refuse.tm_request l q r mt maxre s).
+Proof. unfold C14refuse.tm_request, next_token. cbn -[C14refuse.send_message Z.pow Z.modulo W held].
+  match goal with |- context [C14refuse.send_message l ?a ?b ?c ?d ?e ?f ?s1] => exact (send_message_which a c d e f s1) end. Qed.
+
+Lemma remove_exchange_some mid mt s x : Inv s -> xget r mid (active_exchanges s) = Some x ->
+  exs r (fst (C14refuse.remove_exchange l r mid mt s)) = [].
+Proof. intros HI Ex. destruct (remove_exchange_P l r Href mid mt s HI) as ([D|(D & _)] & _); [exact D|].
+  (* kept is impossible: the exchange has been removed; so go through the function once more *)
+  clear D. unfold C14refuse.remove_exchange. rewrite Ex.
+  destruct (xget_some _ _ _ _ Ex) as (Hin & Hr & Hm).
+  set (s1 := upd_ex s (xdel r mid (active_exchanges s))).
+  assert (Hz1 : exs r s1 = []).
+  { destruct (HI r) as (Hle & _). unfold s1. rewrite exs_upd_ex. apply (filter_xdel_same r mid _ x); [exact Hle|exact Hin|unfold key_eqb; lia]. }
+  set (mon := if mt =? 3 then call_monitor (x_msg x) s1 else (s1, [])).
+  assert (Hmon : active_exchanges (fst mon) = active_exchanges s1 /\ backlogs (fst mon) = backlogs s1).
+  { unfold mon. destruct (mt =? 3); [|cbn; split; reflexivity]. destruct (call_monitor_frame (x_msg x) s1) as (A & B & _). split; assumption. }
+  destruct mon as [s2 o2]. cbn [fst snd] in Hmon. destruct Hmon as (He & Hb).
+  assert (HQ : QOk r s2) by (unfold QOk, backlog_of; rewrite Hb; destruct (HI r) as (_ & _ & C); exact C).
+  assert (Hz2 : exs r s2 = []) by (unfold exs; rewrite He; exact Hz1).
+  pose proof (continue_backlog_P l r Href s2 HQ) as (D & _).
+  destruct (C14refuse.continue_backlog l r s2) as [s3 o3]. cbn [fst snd] in *.
+  destruct D as [D|(D & _)]; [exact D|rewrite D; exact Hz2]. Qed.
+
+Lemma dispatch_message_which mt code mid tok s : Inv s ->
+  W ((mt =? 0) || (((mt =? 2) || (mt =? 3)) && match xget r mid (active_exchanges s) with Some _ => true | None => false end)) s
+    (C14refuse.dispatch_message l r mt code mid tok s).
+Proof. intros HI. unfold W, C14refuse.dispatch_message.
+  set (first := if (mt =? 2) || (mt =? 3) then C14refuse.remove_exchange l r mid mt s else (s, [])).
+  assert (SE : forall mt' s2, exs r (fst (C14refuse.send_empty l r mt' mid s2)) = []).
+  { intros mt' s2. unfold C14refuse.send_empty. apply (send_via_refused l r Href). }
+  destruct (mt =? 0) eqn:E0; cbn [orb].
+  - assert (Hf : first = (s, [])) by (unfold first; replace ((mt =? 2) || (mt =? 3)) with false by lia; reflexivity).
+    rewrite Hf. cbn [crashed existsb]. destruct (code =? 0).
+    + pose proof (SE 3 s) as A. destruct (C14refuse.send_empty l r 3 mid s). exact A.
+    + replace (mt =? 3) with false by lia. destruct (tm_process_response r tok s) as [[s2 o2] ok]. destruct ok.
+      * pose proof (SE 2 s2) as A. destruct (C14refuse.send_empty l r 2 mid s2). exact A.
+      * pose proof (SE 3 s2) as A. destruct (C14refuse.send_empty l r 3 mid s2). exact A.
+  - destruct (((mt =? 2) || (mt =? 3)) && match xget r mid (active_exchanges s) with Some _ => true | None => false end) eqn:Ec.
+    + apply andb_prop in Ec. destruct Ec as [E23 Ex]. destruct (xget r mid (active_exchanges s)) as [x|] eqn:Ex'; [|discriminate].
+      assert (G : exs r (fst first) = []) by (unfold first; rewrite E23; apply (remove_exchange_some mid mt s x HI Ex')).
+      destruct first as [s1 o1]. cbn [fst] in G. destruct (crashed o1); [exact G|]. destruct (code =? 0); [exact G|].
+      destruct (mt =? 3); [exact G|]. pose proof (tm_process_response_frame r tok s1) as (He & _).
+      destruct (tm_process_response r tok s1) as [[s2 o2] ok]. cbn [fst snd] in *. destruct ok; cbn [fst]; unfold exs; rewrite He; exact G.
+    + assert (Hf : first = (s, [])).
+      { unfold first. destruct ((mt =? 2) || (mt =? 3)); [|reflexivity]. cbn [andb] in Ec. unfold C14refuse.remove_exchange.
+        destruct (xget r mid (active_exchanges s)); [discriminate|reflexivity]. }
+      rewrite Hf. cbn [crashed existsb]. destruct (code =? 0); [split; reflexivity|]. destruct (mt =? 3); [split; reflexivity|].
+      unfold tm_process_response. destruct (find _ (outgoing_requests s)); cbn [fst snd app]; split; reflexivity. Qed.
+
+Lemma fire_gone s x : Inv s -> min_timer (active_exchanges s) = Some x -> m_remote (x_msg x) = r -> exs r (fst (C14refuse.fire l s)) = [].
+Proof. intros HI Hmin Hr. pose proof (min_timer_in _ _ Hmin) as Hin. unfold C14refuse.fire. rewrite Hmin.
+  set (s0 := upd_now s (Z.max (now s) (x_due x))).
+  assert (Hz : filter (to_remote r) (xdel r (m_mid (x_msg x)) (active_exchanges s0)) = []).
+  { destruct (HI r) as (Hle & _). apply (filter_xdel_same r _ _ x); [exact Hle|exact Hin|unfold key_eqb; lia]. }
+  assert (G : exs r (fst (C14refuse.retransmit l x s0)) = []).
+  { unfold C14refuse.retransmit. rewrite (xget_own s0 x); [|destruct (HI (m_remote (x_msg x))) as (A & _); exact A|exact Hin]. rewrite Hr.
+    destruct (x_counter x <? m_maxre (x_msg x)).
+    - unfold schedule_retransmit. cbn [fst snd upd_ex active_exchanges].
+      match goal with |- context [send_via_transport l ?w r ?t] => destruct (send_via_refused l r Href w t) as (A & _ & _) end. exact A.
+    - cbn [backlogs upd_ex]. destruct (aget r (backlogs s0)) as [q|]; [|exact Hz].
+      match goal with |- context [tm_dispatch_error ?e ?rr ?ss] =>
+        pose proof (tm_dispatch_error_frame e rr ss) as (He & _); destruct (tm_dispatch_error e rr ss) as [s2 o2] end.
+      cbn [fst snd active_exchanges upd_bl upd_ex] in *. unfold exs. rewrite He. exact Hz. }
+  destruct (C14refuse.retransmit l x s0) as [s1 o1]. exact G. Qed.
+
+Lemma respond_which j k last maxre s v : find (fun v => v_k v =? k) (incoming_requests s) = Some v -> v_remote v = r ->
+  W (negb (held (if v_mtype v =? 1 then 7 else 8) r s)) s (respond (C14refuse.send_message l) j k last maxre s).
+Proof. intros Hf Hr. unfold respond. rewrite Hf, Hr.
+  pose proof (send_message_which (Resp j k) (if v_mtype v =? 1 then 7 else 8) 69 (v_tok v) maxre s) as P1. unfold W in *.
+  destruct (C14refuse.send_message l (Resp j k) r (if v_mtype v =? 1 then 7 else 8) 69 (v_tok v) maxre s) as [s1 o1]. cbn [fst snd] in P1.
+  destruct last; [|exact P1]. destruct (alive k s1) eqn:Ea; [|exact P1].
+  unfold stop_responder. rewrite Ea. cbn [fst snd]. destruct (negb _); [exact P1|].
+  destruct P1 as (A & B). split; [exact A|]. rewrite left_app, B. reflexivity. Qed.
+
+Theorem step_which s e : Inv s -> W (attempts s e r) s (step_ev l s e).
+Proof. intros HI. destruct (touches s e r) eqn:Ht.
+  2:{ destruct (attempts s e r) eqn:Ea; [rewrite (attempts_touches s e r Ea) in Ht; discriminate|].
+      destruct (step_ev_frame l s e r HI Ht) as (A & _ & C). split; [exact A|apply (silent_logs r _ C)]. }
+  destruct e; cbn in Ht; cbn [step_ev attempts]; try discriminate.
+  - assert (r0 = r) by lia. subst r0. rewrite Z.eqb_refl. cbn [andb]. apply tm_request_which.
+  - assert (r0 = r) by lia. subst r0. rewrite Z.eqb_refl. cbn [andb]. apply send_message_which.
+  - assert (r0 = r) by lia. subst r0. rewrite Z.eqb_refl. cbn [andb]. apply dispatch_message_which; exact HI.
+  - assert (r0 = r) by lia. subst r0. rewrite Z.eqb_refl. cbn [andb]. apply dispatch_message_which; exact HI.
+  - assert (r0 = r) by lia. subst r0. rewrite Z.eqb_refl. cbn [C14.step]. apply dispatch_error_exs.
+  - destruct (min_timer (active_exchanges s)) as [x|] eqn:E; [|discriminate]. rewrite Ht. apply (fire_gone s x HI E). lia.
+  - cbn [C14.step]. unfold tm_process_request. split; [reflexivity|]. cbn [fst snd].
+    induction (filter _ (incoming_requests s)) as [|a t IH]; [reflexivity|exact IH].
+  - destruct (find (fun v => v_k v =? k) (incoming_requests s)) as [v|] eqn:Ef; [|discriminate]. rewrite Ht. cbn [andb].
+    apply (respond_which j k last maxre s v Ef). lia. Qed.
+
+(* exported: the alternative is decided by [attempts] *)
+Theorem refused_remote_step_which s e : Inv s ->
+  if attempts s e r then Discarded l r s e else Kept l r s e.
+Proof. intros HI. pose proof (step_which s e HI) as H. unfold W in H. destruct (attempts s e r).
+  - apply alt_gone; assumption.
+  - destruct H as (A & B). apply alt_kept; assumption. Qed.
+End Which.
+
+(* ---------------------------------------------------------------- consequences *)
+(* every step that makes progress at r in the sense of the liveness theorems (ACK/RST of the open exchange, failure, timer of
+   the exchange firing) is an attempt: with r refused, ONE such step empties the queue — the liveness bound is 1 *)
+Lemma progress_attempts s e r : progress s e r = true -> attempts s e r = true.
+Proof. unfold progress. destruct e; cbn; try discriminate; try (destruct (xget _ _ _)); try (destruct (min_timer _)); intros H; try lia; try discriminate. Qed.
+
+Theorem refused_progress_discards l r s e : refuses l r = true -> Inv s -> progress s e r = true ->
+  Discarded l r s e /\ forall m, In m (backlog_of r s) -> In m (left r (snd (step_ev l s e))).
+Proof. intros Href HI Hp. pose proof (refused_remote_step_which l r Href s e HI) as H. rewrite (progress_attempts s e r Hp) in H.
+  split; [exact H|]. destruct H as (_ & _ & H). cbn zeta in H. intros m Hm. rewrite H. apply in_or_app. left. exact Hm. Qed.
+
+(* from any reachable state of the general model (any history of events and refusals) *)
+Theorem refused_remote_reachable a b c es r e :
+  let s := fst (fst (rrun (init a b c, []) es)) in let l := snd (fst (rrun (init a b c, []) es)) in
+  refuses l r = true ->
+  let s' := fst (step_ev l s e) in let o := snd (step_ev l s e) in
+  Inv s' /\ (forall x, ~ In (Crash x) o) /\ wsil r o /\ (if attempts s e r then Discarded l r s e else Kept l r s e) /\
+  (progress s e r = true -> forall m, In m (backlog_of r s) -> In m (left r o)).
+Proof. cbn zeta. intros Href. pose proof (general_inv a b c es) as HI.
+  destruct (refused_remote_step _ r Href _ e HI) as (A & B & C & _).
+  split; [exact A|]. split; [exact B|]. split; [exact C|]. split; [apply refused_remote_step_which; assumption|].
+  intros Hp. apply (refused_progress_discards _ r _ e Href HI Hp). Qed.
 
 (* non-vacuity: remote 0 busy with one message queued, then refused.  A further confirmable request is appended (second
    alternative, queue non-empty); the retransmission timer discards the queue (first alternative, queue non-empty). *)
@@ -234,10 +410,21 @@ Definition s_busy : st := fst (fst (rrun (init 10 100 [], []) [Ev (Request 1 0 0
 Lemma s_busy_inv : Inv s_busy. Proof. apply general_inv. Qed.
 Example refused_remote_step_nontrivial :
   refuses [0] 0 = true /\ map m_sub (backlog_of 0 s_busy) = [Req 2] /\
+  (* retransmission timer: attempt, queue discarded *)
+  attempts s_busy Fire 0 = true /\ progress s_busy Fire 0 = true /\
   left 0 (snd (step_ev [0] s_busy Fire)) = backlog_of 0 s_busy /\ aget 0 (backlogs (fst (step_ev [0] s_busy Fire))) = None /\
   exs 0 (fst (step_ev [0] s_busy Fire)) = [] /\
+  (* a further CON: no attempt, appended *)
+  attempts s_busy (Request 3 0 0 4) 0 = false /\
   map m_sub (backlog_of 0 (fst (step_ev [0] s_busy (Request 3 0 0 4)))) = [Req 2; Req 3] /\
   exs 0 (fst (step_ev [0] s_busy (Request 3 0 0 4))) = exs 0 s_busy /\
+  (* a NON: attempt, queue (and the NON) discarded *)
+  attempts s_busy (Request 4 0 1 4) 0 = true /\
   map m_sub (left 0 (snd (step_ev [0] s_busy (Request 4 0 1 4)))) = [Req 2] /\
-  aget 0 (backlogs (fst (step_ev [0] s_busy (Request 4 0 1 4)))) = None.
+  aget 0 (backlogs (fst (step_ev [0] s_busy (Request 4 0 1 4)))) = None /\
+  (* a CON response from r that needs an (empty) reply: attempt, discarded; a NON response: kept *)
+  attempts s_busy (RecvResp 0 0 777 5) 0 = true /\ map m_sub (left 0 (snd (step_ev [0] s_busy (RecvResp 0 0 777 5)))) = [Req 2] /\
+  attempts s_busy (RecvResp 0 1 777 5) 0 = false /\ map m_sub (backlog_of 0 (fst (step_ev [0] s_busy (RecvResp 0 1 777 5)))) = [Req 2] /\
+  (* an event about another remote: kept *)
+  attempts s_busy (Request 5 1 0 4) 0 = false /\ map m_sub (backlog_of 0 (fst (step_ev [0] s_busy (Request 5 1 0 4)))) = [Req 2].
 Proof. vm_compute. repeat split. Qed.
